@@ -765,6 +765,8 @@ package fosite
 
 //@ func getLangFromRequester
 //@   pure
+//@ func (RFC6749Error).Error
+//@   ensures [C20.error-string-is-code-name] result == e.ErrorField
 //@ func EscapeJSONString
 //@   trusted
 //@   pure
@@ -785,3 +787,117 @@ package fosite
 //@   ensures [C20.no-store-headers] hget(rw.Header(), "Cache-Control") == "no-store" && hget(rw.Header(), "Pragma") == "no-cache"
 //@   ensures [C20.status-matches-error] typeis(ehead(err), *RFC6749Error) ==> rw_status[rw] == old(ehead(err).CodeField) || rw_status[rw] == 500
 //@   ensures [C20.status-matches-error] !typeis(ehead(err), *RFC6749Error) ==> rw_status[rw] == 500
+
+// ---------------------------------------------------------------- C11 / C13 / C20: authorization endpoint writers
+//@ ghost rw_form_action : map[V]string     // action URL of a form_post page written to this writer ("" = none)
+//@ pureiface fosite.ResponseModeHandler.ResponseModes
+
+// A configured response-mode extension writes the response itself; it is assumed to keep the cache headers set before.
+//@ interface ResponseModeHandler.WriteAuthorizeError
+//@   modifies rw_status, rw_body, rw_writes, rw_form_action, mapof(rw.Header())
+//@   ensures forall k string :: (k == "Cache-Control" || k == "Pragma") ==> (k in rw.Header()) == old(k in rw.Header()) && rw.Header()[k] == old(rw.Header()[k])
+//@ interface ResponseModeHandler.WriteAuthorizeResponse
+//@   modifies rw_status, rw_body, rw_writes, rw_form_action, mapof(rw.Header())
+//@   ensures forall k string :: (k == "Cache-Control" || k == "Pragma") ==> (k in rw.Header()) == old(k in rw.Header()) && rw.Header()[k] == old(rw.Header()[k])
+
+//@ func (*Fosite).ResponseModeHandler
+//@   pure
+//@   requires f != nil
+//@   ensures f.Config.GetResponseModeHandlerExtension(ctx) != nil ==> result == f.Config.GetResponseModeHandlerExtension(ctx)
+
+//@ func (ResponseModeTypes).Has
+//@   pure
+//@   ensures [C13.response-mode-membership] result <==> (exists j int :: 0 <= j && j < len(rs) && rs[j] == item)
+//@   invariant loop#1 [C13.response-mode-membership] $i <= len(rs) && (forall j int :: 0 <= j && j < $i ==> rs[j] != item)
+
+// ToValues: the redirect/form parameters of an error; the debug text is included only if exposure is on.
+//@ func (*RFC6749Error).ToValues
+//@   requires e != nil
+//@   modifies e.HintField
+//@   ensures [C20.error-values] result != nil && fresh(result) && formget(result, "error") == e.ErrorField
+//@   ensures [C20.debug-only-if-exposed] !(e.useLegacyFormat && e.DebugField != "" && e.exposeDebug) ==> formget(result, "error_debug") == ""
+//@   ensures [C20.debug-only-if-exposed] !e.useLegacyFormat && e.hintIDField == "" ==> formget(result, "error_description") == desc_text(i18n.GetMessageOrDefault(e.catalog, e.ErrorField, e.lang, e.DescriptionField), e.HintField, e.DebugField, e.exposeDebug)
+
+//@ func WriteAuthorizeFormPostResponse
+//@   trusted
+//@   modifies rw_body, rw_writes, rw_form_action
+//@   ensures [C20.form-post-through-template] rw_form_action == upd(old(rw_form_action), rw, redirectURL)
+
+//@ func GetPostFormHTMLTemplate
+//@   ensures result != nil || DefaultFormPostTemplate == nil
+
+//@ func sendRedirect
+//@   requires rw != nil && rw.Header() != nil
+//@   modifies rw_status, mapof(rw.Header())
+//@   ensures [C11.redirect-is-see-other] rw_status == upd(old(rw_status), rw, 303) && hget(rw.Header(), "Location") == url
+//@   ensures forall k string :: k != "Location" ==> (k in rw.Header()) == old(k in rw.Header()) && rw.Header()[k] == old(rw.Header()[k])
+
+//@ func (*Fosite).WriteAuthorizeError
+//@   let custom = f.ResponseModeHandler(ctx).ResponseModes().Has(old(ar.GetResponseMode()))
+//@   requires f != nil && rw != nil && rw.Header() != nil && ar != nil && err != nil
+//@   modifies rw_status, rw_body, rw_writes, rw_form_action, mapof(rw.Header()), mapof(ar.GetRedirectURI().Query())
+//@   ensures [C20.no-store-headers] hget(rw.Header(), "Cache-Control") == "no-store" && hget(rw.Header(), "Pragma") == "no-cache"
+//@   ensures [C11.no-match-no-redirect] !custom && !old(ar.IsRedirectURIValid()) ==> hget(rw.Header(), "Location") == old(hget(rw.Header(), "Location"))
+//@   ensures [C11.no-match-no-redirect] !custom && !old(ar.IsRedirectURIValid()) ==> rw_form_action[rw] == old(rw_form_action[rw])
+//@   invariant loop#1 [C20.no-store-headers] errors != rw.Header() && hget(rw.Header(), "Cache-Control") == "no-store" && hget(rw.Header(), "Pragma") == "no-cache" && redirectURI == ar.GetRedirectURI() && redirectURI.Fragment == ""
+//@   invariant loop#2 [C20.no-store-headers] errors != rw.Header() && hget(rw.Header(), "Cache-Control") == "no-store" && hget(rw.Header(), "Pragma") == "no-cache" && redirectURI == ar.GetRedirectURI() && redirectURI.Fragment == ""
+//@   ensures [C11.error-redirect-target] !custom && old(ar.IsRedirectURIValid()) && ar.GetResponseMode() != ResponseModeFormPost ==> rw_status[rw] == 303 && ar.GetRedirectURI().Fragment == "" && (hget(rw.Header(), "Location") == urlstr(ar.GetRedirectURI()) || (exists frag string :: hget(rw.Header(), "Location") == urlstr(ar.GetRedirectURI()) + "#" + frag))
+//@   ensures [C11.error-redirect-target] !custom && old(ar.IsRedirectURIValid()) && ar.GetResponseMode() == ResponseModeFormPost ==> rw_form_action[rw] == urlstr(ar.GetRedirectURI()) && ar.GetRedirectURI().Fragment == ""
+
+// ---------------------------------------------------------------- C13 / C20: success writers
+//@ pureiface fosite.AuthorizeResponder.Get* fosite.AccessResponder.ToMap
+
+//@ func (*Fosite).WriteAccessResponse
+//@   requires f != nil && rw != nil && rw.Header() != nil && responder != nil
+//@   modifies rw_status, rw_body, rw_writes, mapof(rw.Header())
+//@   ensures [C20.no-store-headers] hget(rw.Header(), "Cache-Control") == "no-store" && hget(rw.Header(), "Pragma") == "no-cache"
+//@   ensures [C20.status-matches-error] rw_status[rw] == 200 || rw_status[rw] == 500
+
+// Success redirect of the authorization endpoint: the response parameters travel where the response mode says -
+// in the fragment for fragment mode (never in the query), in the form body for form_post.
+//@ func (*Fosite).WriteAuthorizeResponse
+//@   let mode = old(ar.GetResponseMode())
+//@   requires f != nil && rw != nil && rw.Header() != nil && ar != nil && resp != nil && ar.GetRedirectURI() != nil && resp.GetHeader() != rw.Header() && resp.GetParameters() != rw.Header()
+//@   modifies rw_status, rw_body, rw_writes, rw_form_action, mapof(rw.Header()), mapof(ar.GetRedirectURI().Query())
+//@   ensures [C20.no-store-headers] hget(rw.Header(), "Cache-Control") == "no-store" && hget(rw.Header(), "Pragma") == "no-cache"
+//@   ensures [C13.tokens-not-in-query] mode == ResponseModeFragment ==> ar.GetRedirectURI().RawQuery == old(ar.GetRedirectURI().RawQuery) && ar.GetRedirectURI().Fragment == "" && rw_status[rw] == 303 && (hget(rw.Header(), "Location") == urlstr(ar.GetRedirectURI()) || hget(rw.Header(), "Location") == urlstr(ar.GetRedirectURI()) + "#" + encoded(resp.GetParameters()))
+//@   ensures [C13.tokens-not-in-query] mode == ResponseModeFormPost ==> rw_form_action[rw] == urlstr(ar.GetRedirectURI()) && ar.GetRedirectURI().RawQuery == old(ar.GetRedirectURI().RawQuery) && hget(rw.Header(), "Location") == old(hget(rw.Header(), "Location"))
+//@   ensures [C11.redirect-target-is-request-uri] (mode == ResponseModeQuery || mode == ResponseModeDefault) ==> rw_status[rw] == 303 && hget(rw.Header(), "Location") == urlstr(ar.GetRedirectURI())
+//@   invariant loop#1 [C20.no-store-headers] wh == rw.Header() && rh == resp.GetHeader() && rh != wh
+//@   invariant loop#2 [C20.no-store-headers] q != rw.Header() && rq != rw.Header() && hget(rw.Header(), "Cache-Control") == "no-store" && hget(rw.Header(), "Pragma") == "no-cache" && redir == ar.GetRedirectURI()
+
+// ---------------------------------------------------------------- C09 / C20: introspection, revocation, PAR and device writers
+//@ pureiface fosite.IntrospectionResponder.* fosite.PushedAuthorizeResponder.ToMap fosite.DeviceResponder.*
+
+//@ func (*Fosite).WriteIntrospectionError
+//@   requires f != nil && rw != nil && rw.Header() != nil
+//@   modifies rw_status, rw_body, rw_writes, mapof(rw.Header()), enc_w
+//@   ensures [C20.no-store-headers] err != nil ==> hget(rw.Header(), "Cache-Control") == "no-store" && hget(rw.Header(), "Pragma") == "no-cache"
+
+//@ func (*Fosite).WriteIntrospectionResponse
+//@   requires f != nil && rw != nil && rw.Header() != nil && r != nil
+//@   modifies rw_status, rw_body, rw_writes, mapof(rw.Header()), enc_w
+//@   ensures [C20.no-store-headers] hget(rw.Header(), "Cache-Control") == "no-store" && hget(rw.Header(), "Pragma") == "no-cache"
+
+//@ func (*Fosite).WriteRevocationResponse
+//@   requires f != nil && rw != nil && rw.Header() != nil
+//@   modifies rw_status, rw_body, rw_writes, mapof(rw.Header())
+//@   ensures [C20.no-store-headers] hget(rw.Header(), "Cache-Control") == "no-store" && hget(rw.Header(), "Pragma") == "no-cache"
+//@   ensures [C20.status-matches-error] err == nil ==> rw_status[rw] == 200
+
+//@ func (*Fosite).WritePushedAuthorizeResponse
+//@   requires f != nil && rw != nil && rw.Header() != nil && resp != nil && resp.GetHeader() != rw.Header()
+//@   modifies rw_status, rw_body, rw_writes, mapof(rw.Header())
+//@   ensures [C20.no-store-headers] hget(rw.Header(), "Cache-Control") == "no-store" && hget(rw.Header(), "Pragma") == "no-cache"
+//@   invariant loop#1 [C20.no-store-headers] wh == rw.Header() && rh == resp.GetHeader() && rh != wh
+
+//@ func (*Fosite).WritePushedAuthorizeError
+//@   requires f != nil && rw != nil && rw.Header() != nil && err != nil
+//@   modifies rw_status, rw_body, rw_writes, mapof(rw.Header())
+//@   ensures [C20.no-store-headers] hget(rw.Header(), "Cache-Control") == "no-store" && hget(rw.Header(), "Pragma") == "no-cache"
+
+//@ func (*Fosite).WriteDeviceResponse
+//@   requires f != nil && rw != nil && rw.Header() != nil && responder != nil && responder.GetHeader() != rw.Header()
+//@   modifies rw_status, rw_body, rw_writes, mapof(rw.Header())
+//@   ensures [C20.no-store-headers] hget(rw.Header(), "Cache-Control") == "no-store" && hget(rw.Header(), "Pragma") == "no-cache"
+//@   invariant loop#1 [C20.no-store-headers] wh == rw.Header() && rh == responder.GetHeader() && rh != wh
